@@ -46,24 +46,24 @@ def drivers(tier):
             dict(max_states=250000, time_budget=240))
     else:
         d['one-shot'] = (WorldDriver(
-            'one-shot', own='L', types=('H', 'HS', 'P'), ids=(1, 2),
+            'one-shot', own='L', types=('H', 'HS'), ids=(1, 2),
             explicit_ids=(1,), max_autos=1, toggles=True, max_postponed=2,
             shapes=((), ('H',), ('HS',), ('H', 'HS'), ('HS', 'H')),
             coarse=False),
             dict(max_states=600000, time_budget=1200))
         d['callback-disables'] = (WorldDriver(
-            'callback-disables', own='L', types=('H', 'HZ', 'P'), ids=(1, 2),
+            'callback-disables', own='L', types=('H', 'HZ'), ids=(1, 2),
             explicit_ids=(1,), max_autos=1, toggles=True, max_postponed=2,
             shapes=((), ('H',), ('HZ',), ('H', 'HZ'), ('HZ', 'H')),
             coarse=False),
             dict(max_states=600000, time_budget=1200))
         d['toggle-fixpoint'] = (WorldDriver(
             'toggle-fixpoint', own='L', types=('H', 'P', 'N', 'OA'),
-            ids=(1, 2), explicit_ids=(1, 2), max_autos=1, toggles=True,
-            max_postponed=3,
+            ids=(1, 2), explicit_ids=(1,), max_autos=1, toggles=True,
+            max_postponed=2,
             shapes=((), ('H',), ('P',), ('OA',), ('H', 'P'), ('H', 'N'),
                     ('H', 'H'), ('P', 'P'))),
-            dict(max_states=400000))
+            dict(max_states=1500000, time_budget=1200))
         d['subclass-handlers'] = (WorldDriver(
             'subclass-handlers', own='L', types=('H', 'HB', 'OA'),
             ids=(1, 2), explicit_ids=(1,), max_autos=1, toggles=True,
